@@ -300,7 +300,8 @@ func FilterLeaf(t *rapid.T, ts *TypeSpec, vals map[string]any, label string) *FN
 
 	if r.ToOne {
 		cur := vals[r.FromName].(string)
-		op := rapid.SampledFrom([]string{"=", "!=", "in", "~unknown", "==", "!==", "In", ""}).Draw(t, label+"-op")
+		// (an ID is a string: the ordering operators compare it like one)
+		op := rapid.SampledFrom([]string{"=", "!=", "in", "~unknown", "==", "!==", "In", "", "<", "<=", ">", ">="}).Draw(t, label+"-op")
 
 		if op == "in" {
 			list := []string{}
@@ -318,8 +319,17 @@ func FilterLeaf(t *rapid.T, ts *TypeSpec, vals map[string]any, label string) *FN
 		}
 
 		v := cur
-		if rapid.Bool().Draw(t, label+"-other") {
+
+		switch rapid.IntRange(0, 3).Draw(t, label+"-other") {
+		case 0, 1:
 			v = IDString(t, label+"-id", true)
+		case 2:
+			// a neighbour: longer, shorter, zero in front (numbers that read
+			// the same, strings that do not)
+			v = neighbour(t, cur, label+"-nb").(string)
+			if rapid.IntRange(0, 2).Draw(t, label+"-lead0") == 0 {
+				v = "0" + cur
+			}
 		}
 
 		return &FNode{Op: op, Field: r.FromName, Val: v}
@@ -339,7 +349,29 @@ func FilterLeaf(t *rapid.T, ts *TypeSpec, vals map[string]any, label string) *FN
 
 	var v []string
 
-	switch rapid.IntRange(0, 3).Draw(t, label+"-setclass") {
+	switch rapid.IntRange(0, 4).Draw(t, label+"-setclass") {
+	case 4:
+		// The same characters cut differently: as many IDs, the same text
+		// when both lists are written with commas in between.
+		toks := strings.Split(strings.Join(cur, ","), ",")
+		v = RelIDs(t, r, label+"-rnd", 4, true).([]string)
+
+		if len(cur) >= 2 && len(toks) > len(cur) {
+			v = []string{}
+			rest := toks
+
+			for g := len(cur); g >= 1; g-- {
+				take := 1
+				if g > 1 {
+					take = rapid.IntRange(1, len(rest)-(g-1)).Draw(t, label+"-regroup")
+				} else {
+					take = len(rest)
+				}
+
+				v = append(v, strings.Join(rest[:take], ","))
+				rest = rest[take:]
+			}
+		}
 	case 0:
 		v = append([]string{}, cur...)
 		if len(v) > 1 {
